@@ -3,6 +3,6 @@
 cd /verif; rc=0
 [ -z "$(git -C /repo status --porcelain)" ] || { echo "/repo is not clean"; exit 1; }
 for p in $(python3 -c "import json;print(' '.join(c['property_id'] for c in json.load(open('MANIFEST.json'))['checks']))"); do
-  ./check $p --write-baseline | tail -1 | cut -c1-120 | grep -q "exit=0" || { echo "!! $p does not pass"; rc=1; }
+  ./check $p --write-baseline | grep "^\[$p\]" | tail -1 | cut -c1-120 | grep -q "exit=0" || { echo "!! $p does not pass"; rc=1; }
 done
 exit $rc
